@@ -47,6 +47,7 @@ Definition dec_op (s : sexp) : op :=
   | 4 => ORun
   | 5 => OPause a
   | 6 => OResume a
+  | 8 => ODropSrc a
   | _ => ODispose a
   end.
 
